@@ -365,6 +365,15 @@ theorem tournament_winner_legal (O : Ops F) (n size : Nat) (ss : List (List Nat)
         ∃ pre post, pick pop c = pre ++ win :: post ∧ ∀ y ∈ pre, ∃ b, y.obj = some b ∧ a < b) ss sel :=
   tournament_winners O n size ss pop sel h
 
+/-- Observable form of winner legality (what the check evaluates on the implementation's output, without
+any knowledge of the competitors): at most `len - size` members are strictly better than a winner. -/
+theorem tournament_winner_rank_bound (O : Ops F) (n size : Nat) (ss : List (List Nat)) (pop sel : Pop F)
+    (hl : Legal (.tournament n size) pop (.sets ss))
+    (h : select O (.tournament n size) (.sets ss) pop = .ok sel) :
+    ∀ win ∈ sel, ∃ a, win.obj = some a ∧
+      ((List.range pop.length).filter (posBetter pop a)).length + size ≤ pop.length :=
+  tournament_winner_rank O n size ss pop sel hl h
+
 /-- A tournament over the whole population returns a best individual, every time. -/
 theorem tournament_whole_population_is_best (O : Ops F) (n : Nat) (ss : List (List Nat)) (pop sel : Pop F)
     (hl : Legal (.tournament n pop.length) pop (.sets ss))
